@@ -399,7 +399,11 @@ func main() {
 	}
 	r.Extra("child_max_stack_bytes", maxStackForRun)
 	h.pool = &pool{genroot: std.Scratch, nWorkers: nw}
-	h.startCC(nw)
+	ncc := nw
+	if r.Thorough {
+		ncc = runtime.NumCPU()
+	}
+	h.startCC(ncc)
 
 	// The regenerated snapshot must equal the committed one (evidence; any
 	// repair made under this property has to keep it so).
@@ -463,7 +467,7 @@ func main() {
 	// 2. random streams.
 	nRandom, nProgram, nCorpus, maxPkg := 1000, 1000, 800, 200_000
 	if r.Thorough {
-		nRandom, nProgram, nCorpus, maxPkg = 20000, 24000, 8000, 1_000_000
+		nRandom, nProgram, nCorpus, maxPkg = 8000, 10000, 4000, 1_000_000
 	}
 	for done := 0; done < nRandom; done += 500 {
 		batch = batch[:0]
@@ -478,7 +482,7 @@ func main() {
 	}
 	nStruct, nQuoted, nExpr := 120, 500, 1500
 	if r.Thorough {
-		nStruct, nQuoted, nExpr = 1500, 6000, 30000
+		nStruct, nQuoted, nExpr = 800, 4000, 12000
 	}
 	batch = batch[:0]
 	for i := 0; i < nExpr; i++ {
